@@ -151,9 +151,16 @@ class BaseMCMCRunner(ABC):
             self.iteration += 1
 
             # Generate proposals for all walkers
+            # A proposal outside the unit cube is a rejection (drawing again until the
+            # proposal is inside would renormalise the proposal by a state-dependent
+            # constant and break detailed balance at hard walls). Such walkers keep their
+            # point, so nothing is evaluated outside the cube.
             u_prime = np.empty_like(self.u)
+            inside = np.ones(self.n_walkers, dtype=bool)
             for k in range(self.n_walkers):
-                u_prime[k] = self._propose(k)
+                proposal = self._propose(k)
+                inside[k] = check_bounds(proposal, self.periodic, self.reflective)
+                u_prime[k] = proposal if inside[k] else self.u[k]
 
             # Transform to x space
             x_prime = np.array([self.prior_transform(u_p) for u_p in u_prime])
@@ -166,6 +173,7 @@ class BaseMCMCRunner(ABC):
             alpha = np.exp(self.beta * (logl_prime - self.logl) + alpha)
             alpha = np.minimum(1.0, alpha)
             alpha = np.nan_to_num(alpha, nan=0.0)
+            alpha[~inside] = 0.0
 
             # Metropolis criterion
             u_rand = np.random.rand(self.n_walkers)
@@ -246,18 +254,13 @@ class TPCNRunner(BaseMCMCRunner):
         gamma_scale = 2.0 / (self.degrees_of_freedom[self.assignments[k]] + dot_product)
         s = 1.0 / np.random.gamma(shape=gamma_shape, scale=gamma_scale)
 
-        # Generate proposal with boundary checking
-        while True:
-            proposal = (
-                mu
-                + np.sqrt(1.0 - sigma**2.0) * diff
-                + sigma * np.sqrt(s) * chol_cov @ np.random.randn(self.n_dim)
-            )
-            proposal = apply_boundary_conditions(
-                proposal, self.periodic, self.reflective
-            )
-            if check_bounds(proposal, self.periodic, self.reflective):
-                return proposal
+        # Generate one proposal (bounds are checked by the caller)
+        proposal = (
+            mu
+            + np.sqrt(1.0 - sigma**2.0) * diff
+            + sigma * np.sqrt(s) * chol_cov @ np.random.randn(self.n_dim)
+        )
+        return apply_boundary_conditions(proposal, self.periodic, self.reflective)
 
     def _compute_acceptance_factor(
         self, u_prime: np.ndarray, logl_prime: np.ndarray
@@ -314,13 +317,8 @@ class RWMRunner(BaseMCMCRunner):
         chol_cov = self.chol_covs[self.assignments[k]]
         sigma = self.sigmas[self.assignments[k]]
 
-        while True:
-            proposal = self.u[k] + sigma * chol_cov @ np.random.randn(self.n_dim)
-            proposal = apply_boundary_conditions(
-                proposal, self.periodic, self.reflective
-            )
-            if check_bounds(proposal, self.periodic, self.reflective):
-                return proposal
+        proposal = self.u[k] + sigma * chol_cov @ np.random.randn(self.n_dim)
+        return apply_boundary_conditions(proposal, self.periodic, self.reflective)
 
     def _compute_acceptance_factor(
         self, u_prime: np.ndarray, logl_prime: np.ndarray
